@@ -221,7 +221,9 @@ def main(argv):
         'violations': new_violations,
         'verdict': 'violated' if new_violations else ('inconclusive' if problems else 'held_on_observed'),
     }
-    if not replay:
+    # VERIF_NO_EVIDENCE: runs against a scratch copy of the repository (seeded-change experiments)
+    # must not overwrite the evidence of the real tree
+    if not replay and not os.environ.get('VERIF_NO_EVIDENCE'):
         os.makedirs(os.path.join(HERE, 'evidence'), exist_ok=True)
         with open(os.path.join(HERE, 'evidence', '%s.json' % prop), 'w') as f:
             json.dump(ev, f, indent=1, sort_keys=True)
